@@ -65,6 +65,7 @@ func runST(rt *rapid.T, c *Case, m Mode) (h *Hist, fs []Finding) {
 func TestST(t *testing.T) {
 	m := stMode
 	m.SampleGoroutines = *flagProp == "C03"
+	repsAfterFailure = 4
 	if r, ok := loadReplay(t); ok {
 		rapid.Check(t, func(rt *rapid.T) {
 			_, fs := runST(rt, r.Case, m)
